@@ -265,6 +265,9 @@ class MatcherAtoms:
             neg = isinstance(e.ops[0], ast.NotIn)
             l, r = e.left, e.comparators[0]
             l = resolve_alias(self.f, l)
+            r_alias = resolve_alias(self.f, r) if isinstance(r, ast.Name) else r
+            if isinstance(r_alias, ast.Attribute) or isinstance(r_alias, ast.Call):
+                r = r_alias  # a local name for the label map's dict / its views
             atom = None
             if isinstance(l, ast.Name):
                 d = dotted(r)
